@@ -601,3 +601,176 @@ Proof.
     destruct Hfp as [-> Hkk]. rewrite Ep, Ea, Hkk. reflexivity.
   - intros [Hll <-]. apply (Parent_contains _ _ _ _ _ H'). lia.
 Qed.
+
+(** ** (face, pos, level) round trip *)
+Lemma FromFacePosLevel_roundtrip : forall c f l k, rep c f l k ->
+  s2_CellIDFromFacePosLevel (s2_CellID_Face c) (s2_CellID_Pos c) (s2_CellID_Level c) = c.
+Proof.
+  intros c f l k H. rewrite (Face_rep _ _ _ _ H), (Pos_rep _ _ _ _ H), (Level_rep _ _ _ _ H).
+  unfold s2_CellIDFromFacePosLevel.
+  pose proof H as (Hf & Hl & Hk & E).
+  pose proof (rep_u64 _ _ _ _ H) as Hc.
+  rewrite (wrap_u64_small f) by (change (2 ^ 64) with 18446744073709551616; lia).
+  rewrite go_shl_mul by lia.
+  rewrite (wrap_u64_small (f * 2 ^ 61)) by (change (2 ^ 64) with (8 * 2 ^ 61); lia).
+  rewrite <- E. rewrite (rep_wrap _ _ _ _ H). rewrite lor_1.
+  assert (Hx : u64 (2 * (c / 2) + 1)).
+  { unfold u64. pose proof (Z.div_mod c 2 ltac:(lia)). pose proof (Z.mod_pos_bound c 2 ltac:(lia)).
+    change (2 ^ 64) with (8 * 2 ^ 61). lia. }
+  rewrite (wrap_u64_small _ Hx). rewrite Parent_formula by (try assumption; lia).
+  rewrite <- (Parent_self _ _ _ _ H) at 2.
+  assert (Hu : u64 c) by (unfold u64; change (2 ^ 64) with (8 * 2 ^ 61); lia).
+  rewrite (Parent_formula c l Hu Hl). f_equal. f_equal. f_equal.
+  rewrite !Z.pow_add_r by lia. change (2 ^ 1) with 2.
+  rewrite !(Z.mul_comm (2 ^ (2 * (30 - l))) 2).
+  rewrite <- !Z.div_div by (try apply pow2_pos; lia). f_equal.
+  symmetry. apply (Z.div_unique (2 * (c / 2) + 1) 2 (c / 2) 1); [left|]; lia.
+Qed.
+
+(** any position inside the cell gives the cell back *)
+Lemma FromFacePosLevel_of_rep : forall f l k, 0 <= f < 6 -> 0 <= l <= 30 -> 0 <= k < 4 ^ l ->
+  rep (s2_CellIDFromFacePosLevel f ((2 * k + 1) * 4 ^ (30 - l)) l) f l k.
+Proof.
+  intros f l k Hf Hl Hk.
+  assert (H : rep (f * 2 ^ 61 + (2 * k + 1) * 4 ^ (30 - l)) f l k) by (repeat split; lia).
+  pose proof (FromFacePosLevel_roundtrip _ _ _ _ H) as R.
+  rewrite (Face_rep _ _ _ _ H), (Pos_rep _ _ _ _ H), (Level_rep _ _ _ _ H) in R. rewrite R. exact H.
+Qed.
+
+(** ** Next / Prev along the curve *)
+Lemma Next_eq : forall c f l k, rep c f l k -> s2_CellID_Next c = c + 2 * 4 ^ (30 - l).
+Proof.
+  intros c f l k H. unfold s2_CellID_Next. rewrite (lsb_rep _ _ _ _ H), (rep_wrap _ _ _ _ H).
+  pose proof H as (Hf & Hl & _). pose proof (pow4_le_2_60 l Hl) as Hb.
+  pose proof (pow4_pos (30 - l) ltac:(lia)) as Hbp. pose proof (rep_u64 _ _ _ _ H) as Hc.
+  rewrite go_shl_mul by lia. change (2 ^ 1) with 2. set (b := 4 ^ (30 - l)) in *.
+  rewrite (wrap_u64_small (b * 2)) by (change (2 ^ 64) with (16 * 2 ^ 60); lia).
+  rewrite (wrap_u64_small (c + b * 2)) by (change (2 ^ 64) with (8 * 2 ^ 61); change (2 ^ 61) with (2 * 2 ^ 60) in *; lia).
+  rewrite wrap_u64_small by (change (2 ^ 64) with (8 * 2 ^ 61); change (2 ^ 61) with (2 * 2 ^ 60) in *; lia). ring.
+Qed.
+
+Lemma Prev_eq : forall c f l k, rep c f l k -> s2_CellID_Prev c = wrap_u64 (c - 2 * 4 ^ (30 - l)).
+Proof.
+  intros c f l k H. unfold s2_CellID_Prev. rewrite (lsb_rep _ _ _ _ H), (rep_wrap _ _ _ _ H).
+  pose proof H as (Hf & Hl & _). pose proof (pow4_le_2_60 l Hl) as Hb.
+  pose proof (pow4_pos (30 - l) ltac:(lia)) as Hbp.
+  rewrite go_shl_mul by lia. change (2 ^ 1) with 2. set (b := 4 ^ (30 - l)) in *.
+  rewrite (wrap_u64_small (b * 2)) by (change (2 ^ 64) with (16 * 2 ^ 60); lia).
+  unfold wrap_u64, wrap_u. rewrite Z.mod_mod by lia. f_equal. ring.
+Qed.
+
+(** index of a cell among the 6*4^l cells of its level *)
+Definition index (f l k : Z) : Z := f * 4 ^ l + k.
+
+Lemma rep_of_index : forall l i, 0 <= l <= 30 -> 0 <= i < 6 * 4 ^ l ->
+  rep ((2 * i + 1) * 4 ^ (30 - l)) (i / 4 ^ l) l (i mod 4 ^ l).
+Proof.
+  intros l i Hl Hi. pose proof (pow4_pos l ltac:(lia)) as HB.
+  split; [split; [apply Z.div_pos; lia|apply Z.div_lt_upper_bound; lia]|].
+  split; [lia|]. split; [apply Z.mod_pos_bound; lia|].
+  change (2 ^ 61) with (2 * 2 ^ 60). rewrite <- (pow4_split l) by lia.
+  rewrite (Z.div_mod i (4 ^ l)) at 1 by lia. ring.
+Qed.
+
+Lemma rep_index_form : forall c f l k, rep c f l k -> c = (2 * index f l k + 1) * 4 ^ (30 - l).
+Proof.
+  intros c f l k (Hf & Hl & Hk & ->). unfold index.
+  change (2 ^ 61) with (2 * 2 ^ 60). rewrite <- (pow4_split l) by lia. ring.
+Qed.
+
+Lemma index_bounds : forall f l k, 0 <= f < 6 -> 0 <= l -> 0 <= k < 4 ^ l -> 0 <= index f l k < 6 * 4 ^ l.
+Proof. intros f l k Hf Hl Hk. unfold index. pose proof (pow4_pos l Hl). nia. Qed.
+
+(** Next is "index + 1" while it stays below 6*4^l; NextWrap wraps to index 0 *)
+Lemma Next_index : forall c f l k, rep c f l k -> index f l k + 1 < 6 * 4 ^ l ->
+  s2_CellID_Next c = (2 * (index f l k + 1) + 1) * 4 ^ (30 - l).
+Proof.
+  intros c f l k H Hi. rewrite (Next_eq _ _ _ _ H). rewrite (rep_index_form _ _ _ _ H) at 1. ring.
+Qed.
+
+Lemma NextWrap_index : forall c f l k, rep c f l k ->
+  s2_CellID_NextWrap c = (2 * ((index f l k + 1) mod (6 * 4 ^ l)) + 1) * 4 ^ (30 - l).
+Proof.
+  intros c f l k H. unfold s2_CellID_NextWrap. cbv zeta. rewrite (Next_eq _ _ _ _ H).
+  pose proof H as (Hf & Hl & Hk & _). pose proof (index_bounds f l k Hf ltac:(lia) Hk) as Hi.
+  pose proof (pow4_pos l ltac:(lia)) as HB. pose proof (pow4_pos (30 - l) ltac:(lia)) as Hb.
+  pose proof (pow4_split l Hl) as Hs.
+  rewrite (rep_index_form _ _ _ _ H).
+  set (i := index f l k) in *. set (b := 4 ^ (30 - l)) in *. set (B := 4 ^ l) in *.
+  change 13835058055282163712 with (6 * 2 * 2 ^ 60). rewrite <- Hs.
+  replace ((2 * i + 1) * b + 2 * b) with ((2 * (i + 1) + 1) * b) by ring.
+  assert (Hlt64 : (2 * (i + 1) + 1) * b < 2 ^ 64).
+  { assert ((2 * (i + 1) + 1) * b <= (2 * (6 * B) + 1) * b) by (apply Z.mul_le_mono_nonneg_r; lia).
+    change (2 ^ 64) with (16 * 2 ^ 60). rewrite <- Hs. 
+    assert (b <= B * b) by (replace b with (1 * b) at 1 by ring; apply Z.mul_le_mono_nonneg_r; lia). lia. }
+  assert (H0 : 0 <= (2 * (i + 1) + 1) * b) by (apply Z.mul_nonneg_nonneg; lia).
+  rewrite (wrap_u64_small ((2 * (i + 1) + 1) * b)) by lia.
+  destruct (Z_lt_le_dec (i + 1) (6 * B)) as [Hin|Hout].
+  - rewrite (Z.mod_small (i + 1)) by lia.
+    replace ((2 * (i + 1) + 1) * b <? 6 * 2 * (B * b)) with true; [reflexivity|].
+    symmetry. apply Z.ltb_lt.
+    assert ((2 * (i + 1) + 1) * b <= (2 * (6 * B) - 1) * b) by (apply Z.mul_le_mono_nonneg_r; lia). lia.
+  - assert (Ei : i + 1 = 6 * B) by lia. rewrite Ei. rewrite Z.mod_same by lia.
+    replace ((2 * (6 * B) + 1) * b <? 6 * 2 * (B * b)) with false
+      by (symmetry; apply Z.ltb_ge; lia).
+    replace ((2 * (6 * B) + 1) * b - 6 * 2 * (B * b)) with b by ring.
+    assert (Hbb : b <= B * b) by (replace b with (1 * b) at 1 by ring; apply Z.mul_le_mono_nonneg_r; lia).
+    rewrite !(wrap_u64_small b) by (change (2 ^ 64) with (16 * 2 ^ 60); rewrite <- Hs; lia).
+    ring.
+Qed.
+
+Lemma NextWrap_rep : forall c f l k, rep c f l k ->
+  let i := (index f l k + 1) mod (6 * 4 ^ l) in
+  rep (s2_CellID_NextWrap c) (i / 4 ^ l) l (i mod 4 ^ l).
+Proof.
+  intros c f l k H i. rewrite (NextWrap_index _ _ _ _ H). fold i.
+  pose proof H as (Hf & Hl & Hk & _). pose proof (pow4_pos l ltac:(lia)).
+  apply rep_of_index; [lia|]. apply Z.mod_pos_bound. lia.
+Qed.
+
+Lemma PrevWrap_index : forall c f l k, rep c f l k ->
+  s2_CellID_PrevWrap c = (2 * ((index f l k - 1) mod (6 * 4 ^ l)) + 1) * 4 ^ (30 - l).
+Proof.
+  intros c f l k H. unfold s2_CellID_PrevWrap. cbv zeta. rewrite (Prev_eq _ _ _ _ H).
+  pose proof H as (Hf & Hl & Hk & _). pose proof (index_bounds f l k Hf ltac:(lia) Hk) as Hi.
+  pose proof (pow4_pos l ltac:(lia)) as HB. pose proof (pow4_pos (30 - l) ltac:(lia)) as Hb.
+  pose proof (pow4_split l Hl) as Hs.
+  rewrite (rep_index_form _ _ _ _ H).
+  set (i := index f l k) in *. set (b := 4 ^ (30 - l)) in *. set (B := 4 ^ l) in *.
+  change 13835058055282163712 with (6 * 2 * 2 ^ 60). rewrite <- Hs.
+  replace ((2 * i + 1) * b - 2 * b) with ((2 * (i - 1) + 1) * b) by ring.
+  assert (Hbb : b <= B * b) by (replace b with (1 * b) at 1 by ring; apply Z.mul_le_mono_nonneg_r; lia).
+  destruct (Z_lt_le_dec 0 i) as [Hpos|Hz].
+  - assert (H0 : 0 <= (2 * (i - 1) + 1) * b) by (apply Z.mul_nonneg_nonneg; lia).
+    assert (Hlt : (2 * (i - 1) + 1) * b <= (2 * (6 * B) - 3) * b) by (apply Z.mul_le_mono_nonneg_r; lia).
+    rewrite (wrap_u64_small ((2 * (i - 1) + 1) * b)) by (change (2 ^ 64) with (16 * 2 ^ 60); rewrite <- Hs; lia).
+    rewrite (wrap_u64_small ((2 * (i - 1) + 1) * b)) by (change (2 ^ 64) with (16 * 2 ^ 60); rewrite <- Hs; lia).
+    rewrite (Z.mod_small (i - 1)) by lia.
+    replace ((2 * (i - 1) + 1) * b <? 6 * 2 * (B * b)) with true; [reflexivity|].
+    symmetry. apply Z.ltb_lt. lia.
+  - assert (Ei : i = 0) by lia. rewrite Ei. replace ((2 * (0 - 1) + 1) * b) with (- b) by ring.
+    assert (Ew : wrap_u64 (- b) = 2 ^ 64 - b).
+    { unfold wrap_u64, wrap_u. symmetry. apply (Z.mod_unique (- b) (2 ^ 64) (-1)); [left|ring].
+      change (2 ^ 64) with (16 * 2 ^ 60). rewrite <- Hs. lia. }
+    rewrite Ew. rewrite (wrap_u64_small (2 ^ 64 - b)) by (change (2 ^ 64) with (16 * 2 ^ 60); rewrite <- Hs; lia).
+    replace (2 ^ 64 - b <? 6 * 2 * (B * b)) with false
+      by (symmetry; apply Z.ltb_ge; change (2 ^ 64) with (16 * 2 ^ 60); rewrite <- Hs; lia).
+    replace ((0 - 1) mod (6 * B)) with (6 * B - 1)
+      by (apply (Z.mod_unique (0 - 1) (6 * B) (-1)); [left|]; lia).
+    assert (Esum : wrap_u64 (2 ^ 64 - b + 6 * 2 * (B * b)) = 6 * 2 * (B * b) - b).
+    { unfold wrap_u64, wrap_u. symmetry. apply (Z.mod_unique _ (2 ^ 64) 1); [left|ring].
+      change (2 ^ 64) with (16 * 2 ^ 60). rewrite <- Hs. lia. }
+    rewrite Esum. rewrite wrap_u64_small by (change (2 ^ 64) with (16 * 2 ^ 60); rewrite <- Hs; lia). ring.
+Qed.
+
+Lemma PrevWrap_NextWrap : forall c f l k, rep c f l k -> s2_CellID_PrevWrap (s2_CellID_NextWrap c) = c.
+Proof.
+  intros c f l k H. pose proof (NextWrap_rep _ _ _ _ H) as HN. cbv zeta in HN.
+  rewrite (PrevWrap_index _ _ _ _ HN). rewrite (rep_index_form _ _ _ _ H) at 1.
+  pose proof H as (Hf & Hl & Hk & _). pose proof (index_bounds f l k Hf ltac:(lia) Hk) as Hi.
+  pose proof (pow4_pos l ltac:(lia)) as HB.
+  set (i := index f l k) in *. set (n := 6 * 4 ^ l) in *.
+  unfold index. rewrite (Z.mul_comm (((i + 1) mod n) / 4 ^ l)). rewrite <- Z.div_mod by lia.
+  f_equal. f_equal. f_equal.
+  rewrite Zminus_mod_idemp_l. replace (i + 1 - 1) with i by ring. apply Z.mod_small. lia.
+Qed.
